@@ -48,6 +48,13 @@ pub fn apps() -> Vec<AppDef> {
         bases: vec![vq.clone(), json!({"origin_vertex": 0})],
         fields: vec!["origin_vertex", "destination_vertex", "weights", "weights.distance", "vehicle_rates", "vehicle_rates.distance", "vehicle_rates.distance.type", "cost_aggregation", "weight_factor"],
     });
+    // the same configuration with the route and the tree rendered in the other output formats (geometry is built from the route:
+    // an empty route, a missing tree or an error must not reach the renderers unguarded)
+    for (name, route, tree) in [("plain_vertex_wkt", "wkt", "wkt"), ("plain_vertex_wkb", "wkb", "wkb"), ("plain_vertex_geo_json", "geo_json", "geo_json"), ("plain_vertex_json", "json", "json")] {
+        let mut s = AppSpec::simple(net.clone());
+        s.output_plugins = vec![json!({"type": "summary"}), json!({"type": "traversal", "route": route, "tree": tree, "geometry_input_file": "$DIR/geometries.txt"})];
+        out.push(AppDef { name, spec: s, bases: vec![vq.clone(), json!({"origin_vertex": 0})], fields: vec!["origin_vertex", "destination_vertex"] });
+    }
     // speed table model: state features can be overridden from the query
     let mut s = AppSpec::simple(net.clone());
     s.speed = Some((speeds.clone(), SpeedUnit::KilometersPerHour, Some(DistanceUnit::Meters), Some(TimeUnit::Seconds)));
@@ -254,7 +261,7 @@ fn special_queries(def: &AppDef) -> Vec<(String, Value, bool)> {
         v.push((format!("non_object_query_{}", i), x, true));
     }
     v.push(("empty_object".into(), json!({}), true));
-    if def.name == "plain_vertex" || def.name == "ksp_single_via" || def.name == "yens_k1" {
+    if def.name.starts_with("plain_vertex") || def.name == "ksp_single_via" || def.name == "yens_k1" {
         v.push(("origin_one_past_end".into(), json!({"origin_vertex": n, "destination_vertex": 4}), true));
         v.push(("destination_one_past_end".into(), json!({"origin_vertex": 0, "destination_vertex": n}), true));
         v.push(("origin_equals_destination".into(), json!({"origin_vertex": 3, "destination_vertex": 3}), true));
@@ -295,7 +302,7 @@ fn special_queries(def: &AppDef) -> Vec<(String, Value, bool)> {
 /// fields without which (or with an ill-typed value of which) the query cannot be answered
 fn required_field(def: &AppDef, field: &str) -> bool {
     match def.name {
-        "plain_vertex" | "speed_vertex" | "grid_search" | "inject_overwrite" | "inject_no_overwrite" | "ksp_single_via" | "yens_k1" | "energy_bev" => field == "origin_vertex",
+        "plain_vertex" | "plain_vertex_wkt" | "plain_vertex_wkb" | "plain_vertex_geo_json" | "plain_vertex_json" | "speed_vertex" | "grid_search" | "inject_overwrite" | "inject_no_overwrite" | "ksp_single_via" | "yens_k1" | "energy_bev" => field == "origin_vertex",
         "vertex_rtree" | "edge_rtree" | "load_balancer_haversine" => field == "origin_x" || field == "origin_y",
         _ => false,
     }
